@@ -224,7 +224,9 @@ func prepDataUnary(a Tensor, reuse Tensor) (dataA, dataReuse *storage.Header, ai
 	}
 
 	// get iterator
-	if a.RequiresIterator() || (reuse != nil && reuse.RequiresIterator()) {
+	if a.RequiresIterator() ||
+		(reuse != nil && reuse.RequiresIterator()) ||
+		(reuse != nil && !reuse.DataOrder().HasSameOrder(a.DataOrder())) {
 		ait = a.Iterator()
 		if reuse != nil {
 			rit = reuse.Iterator()
